@@ -73,6 +73,15 @@ void SoPlexBase<R>::_optimizeRational(volatile bool* interrupt)
                        _basisStatusCols.size());
    }
 
+   // a preceding floating-point solve with persistent scaling has left the real LP scaled; the exact solver works on the
+   // user's LP (it rounds the rational LP into the real one and scales copies itself), so undo the scaling first
+   if(_isRealLPScaled)
+   {
+      _solver.unscaleLPandReloadBasis();
+      _isRealLPScaled = false;
+      ++_unscaleCalls;
+   }
+
    // store objective, bounds, and sides of Real LP in case they will be modified during iterative refinement
    _storeLPReal();
 
